@@ -295,9 +295,76 @@ class Engine:
                     vals["__choices__"] = list(self.choices)
                     slack_used = True
                     break
+        centred = None
+        if self.stats.get("centre_attempts", 0) < 3:          # a few per task: the driver replays only a few models per signature
+            self.stats["centre_attempts"] = self.stats.get("centre_attempts", 0) + 1
+            centred = self._centre(claim, slack_claim, vals)
+        if centred is not None:
+            vals = centred
         self.obligations.append(Obligation(name, "violated", self._path_index, model=vals, info=info,
                                            slack_model=slack_used))
         return "violated"
+
+    def _centre(self, claim, slack_claim, vals):
+        """A solver model is a vertex: it satisfies some path condition or ite guard with EQUALITY, and the float64 replay can fall on
+        the other side of that comparison.  Collect a few more counterexamples that differ from the first one in some input, and return
+        a convex combination that is itself a counterexample (checked by evaluating assumptions, path condition and the negated claim
+        under the candidate) - an interior point of the violating region, robust under rounding.  None if nothing better was found."""
+        reals = [(k, v) for k, v in self.inputs.items() if z3.is_real(v) and isinstance(vals.get(k), Fraction)]
+        if not reals or len(reals) > 400:
+            return None
+        neg = []
+        if callable(slack_claim):
+            for level in (0, 1, 2):
+                try:
+                    sc = slack_claim(level)
+                except Exception:  # noqa: BLE001
+                    sc = None
+                if sc is not None:
+                    from .values import bterm
+                    neg.append(z3.Not(bterm(sc)))
+        neg.append(z3.Not(claim))
+        base = [a for a in self.solver.assertions()]
+
+        def holds(cand, goal):
+            sub = [(v, z3.RealVal(cand[k].numerator) if cand[k].denominator == 1 else z3.Q(cand[k].numerator, cand[k].denominator))
+                   for k, v in reals]
+            for a in base + [goal]:
+                t = z3.simplify(z3.substitute(a, *sub))
+                if not z3.is_true(t):
+                    return False
+            return True
+        import random as _r
+        rnd = _r.Random(len(self.obligations) * 7919 + len(reals))
+        for goal in neg:
+            pts = []
+            first = {k: vals[k] for k, _ in reals}
+            if holds(first, goal):
+                pts.append(first)
+            tries = 0
+            while len(pts) < 4 and tries < 8:
+                tries += 1
+                k, v = reals[rnd.randrange(len(reals))]
+                ref = (pts[-1] if pts else first)[k]
+                delta = Fraction(1, 8) * (1 + abs(ref))
+                side = v >= ref + delta if rnd.random() < 0.5 else v <= ref - delta
+                extra = [goal, side] + [c for _, w in reals for c in (w <= 1000, w >= -1000)]
+                r, m = self._check(*extra)
+                if r != "sat":
+                    continue
+                mv = self._extract(m)
+                pts.append({kk: mv[kk] for kk, _ in reals})
+            if len(pts) < 2:
+                continue
+            cands = [{k: sum(p[k] for p in pts) / len(pts) for k, _ in reals}]
+            cands += [{k: (pts[i][k] + pts[j][k]) / 2 for k, _ in reals} for i in range(len(pts)) for j in range(i + 1, len(pts))]
+            for c in cands:
+                if holds(c, goal):
+                    out = dict(vals)
+                    out.update(c)
+                    self.stats["centred_models"] = self.stats.get("centred_models", 0) + 1
+                    return out
+        return None
 
     def prove_external(self, name, claim, timeout_s=150, info=None, binary="cvc5"):
         """Discharge a floating-point obligation with the cvc5 binary (SMT-LIB2 export of assumptions ∧ path ∧ ¬claim).
